@@ -59,6 +59,17 @@ theorem primes31_nttGood : primes31.NttGood := by
   intro k hk
   exact ⟨laneFwd_of _ k (a k hk) (b k hk) (c k hk), laneInv_of _ k (d k hk) (e k hk)⟩
 
+theorem primes29_nttGood : primes29.NttGood := by
+  have a : ∀ k, k < 4 → (2 ^ 17 < primes29.qs.getD k 1 ∧ primes29.qs.getD k 1 < 2 ^ 31 ∧ primes29.omega.getD k 0 < primes29.qs.getD k 1 ∧
+      (primes29.omega.getD k 0) ^ 2 ^ 16 % primes29.qs.getD k 1 = primes29.qs.getD k 1 - 1) := by decide +kernel
+  have b : ∀ k, k < 4 → ((reducOf primes29 k).1.h < 64 ∧ 33 ≤ (reducOf primes29 k).1.h ∧ (reducOf primes29 k).1.mask = 2 ^ (reducOf primes29 k).1.h - 1 ∧
+      (reducOf primes29 k).1.cst < 2 ^ 31 ∧ (reducOf primes29 k).1.cst ≡ 2 ^ (reducOf primes29 k).1.h [MOD primes29.qs.getD k 1]) := by decide +kernel
+  have c : ∀ k, k < 4 → ∀ j, j < 17 → (1 ≤ j → fwdCheck primes29 k j = true) := by decide +kernel
+  have d : ∀ k, k < 4 → ((primes29.qs.getD k 1 - 1) % 2 ^ 17 = 0 ∧ pow2Mod (primes29.qs.getD k 1 - 1) (primes29.qs.getD k 1) = 1) := by decide +kernel
+  have e : ∀ k, k < 4 → ∀ j, j < 17 → (1 ≤ j → invCheck primes29 k j = true) := by decide +kernel
+  intro k hk
+  exact ⟨laneFwd_of _ k (a k hk) (b k hk) (c k hk), laneInv_of _ k (d k hk) (e k hk)⟩
+
 /-! ### every output of the executable networks is a `u64` -/
 
 theorem wu64_le (x : Nat) : wu64 x ≤ 2 ^ 64 - 1 := by
